@@ -192,6 +192,51 @@ tzm_mname_size(tzmap_t m)
 	return fz - tzm_zname_size(m) - sizeof(*m);
 }
 
+static int
+tzm_sane_p(const struct tzmap_s *m, size_t fz)
+{
+/* make sure tzm_find() stays inside a map of FZ bytes:
+ * the zone names are aligned and \nul terminated, what follows is
+ * a sequence of keys (words not starting with \nul, padded with \nuls
+ * to a full word) each concluded by an offset word (\nul, 16 bits of
+ * offset into the zone names, \nul) */
+	const size_t zz = m->off;
+	const unsigned char *rp;
+	size_t nw;
+	int in_key = 0;
+	int padded = 0;
+
+	if (zz == 0U || zz % sizeof(znoff_t) || zz > fz - sizeof(*m) ||
+	    m->data[zz - 1U] != '\0') {
+		return -1;
+	} else if ((fz - sizeof(*m) - zz) % sizeof(znoff_t) ||
+		   (nw = (fz - sizeof(*m) - zz) / sizeof(znoff_t)) < 2U) {
+		return -1;
+	}
+	rp = (const unsigned char*)m->data + zz;
+	for (size_t i = 0U; i < nw; i++, rp += sizeof(znoff_t)) {
+		if (rp[0U] != '\0') {
+			/* key material, \nuls only as padding at the end
+			 * of the key's last word */
+			const int z1 = !rp[1U], z2 = !rp[2U], z3 = !rp[3U];
+
+			if (padded || (z1 && !z2) || (z2 && !z3)) {
+				return -1;
+			}
+			in_key = 1;
+			padded = z3;
+		} else if (!in_key || rp[3U] != '\0' ||
+			   ((size_t)rp[1U] << 8U | rp[2U]) >= zz) {
+			/* offset word without a key, or pointing nowhere */
+			return -1;
+		} else {
+			in_key = padded = 0;
+		}
+	}
+	/* the last key must have got its offset word */
+	return -in_key;
+}
+
 DEFUN tzmap_t
 tzm_open(const char *fn)
 {
@@ -215,6 +260,10 @@ tzm_open(const char *fn)
 	}
 	/* turn offset into native endianness */
 	m->off = be32toh(m->off);
+	/* don't trust the file any further than we can check it */
+	if (tzm_sane_p(m, fz) < 0) {
+		goto mun;
+	}
 	/* also put fd and map size into m */
 	m->flags[0U] = (znoff_t)fd;
 	m->flags[1U] = (znoff_t)st->st_size;
